@@ -239,6 +239,15 @@ func genC21Seq(rg *vkit.Rand, s *c21Spec) {
 			}
 			m.deleteBucket(b)
 			s.Steps = append(s.Steps, c21Step{Op: "delete-bucket", Bucket: b})
+		case roll < 74 && roll >= 72:
+			// a plain append (no write offset) on a key that exists at acceptance order; it is
+			// usually issued while the put that created the key is still queued
+			if len(present) == 0 {
+				continue
+			}
+			k = vkit.Pick(rg, present)
+			m.set(b, k, fake())
+			s.Steps = append(s.Steps, c21Step{Op: "append", Bucket: b, Key: k, Seq: seq, Size: rg.Range(1, 700)})
 		case roll < 72:
 			st := putStep(rg, b, k, seq)
 			st.Op, st.Meta, st.Class = "bad-put", nil, ""
@@ -598,6 +607,9 @@ func (c *c21Run) execOn(ctx context.Context, ob storage.Storage, client int, st 
 			opts = &storage.PutObjectOptions{Tags: st.Tags}
 		}
 		_, err := ob.PutObject(ctx, bn(st.Bucket), kn(st.Key), ptrOrNil(st.CType), bytes.NewReader(c21Content(st.Key, client, st.Seq, st.Size)), bogus, opts)
+		rec.Out = errKind(err)
+	case "append":
+		_, err := ob.AppendObject(ctx, bn(st.Bucket), kn(st.Key), bytes.NewReader(c21Content(st.Key, client, st.Seq, st.Size)), nil, nil)
 		rec.Out = errKind(err)
 	case "delete":
 		_, err := ob.DeleteObject(ctx, bn(st.Bucket), kn(st.Key), nil)
